@@ -157,7 +157,18 @@ func TestC20HostFunctions(t *testing.T) {
 		payload := map[string]interface{}{"prop": "C20", "kind": "hostfunction", "script": script, "arity": arity, "void": void, "returns": ret.Describe()}
 		var seen [][]lang.Value
 		r := eng.NewRunner(script)
+		// a host function may use the evaluator it belongs to (keep a counter in
+		// a variable scripts can see, look at what the script has set so far,
+		// register a helper): under Run as under Execute
+		reentrant := gen.Uniform(rt, "reentrant", 3) == 0
+		hostCount := int64(0)
 		r.E.AddFunction("hf", func(a []object.Object) object.Object {
+			if reentrant {
+				hostCount++
+				_ = r.E.GetVariable("before")
+				r.E.SetVariable("hostcount", &object.Integer{Value: hostCount})
+				r.E.AddFunction("helper", func([]object.Object) object.Object { return &object.Null{} })
+			}
 			var got []lang.Value
 			for _, o := range a {
 				v, _ := eng.FromObject(o)
@@ -173,7 +184,43 @@ func TestC20HostFunctions(t *testing.T) {
 		if err, pan := r.Prepare(noOpt); err != nil || pan != nil {
 			violation(rt, "C20", payload, "Prepare failed: %v %v", err, pan)
 		}
-		res := r.Execute(nil)
+		var res eng.Result
+		if reentrant {
+			col.Class("host-function-uses-its-evaluator")
+			// first through Run (which holds the evaluator's lock for the whole
+			// script), then through Execute; a call that does not come back is blocked
+			type runOut struct {
+				err error
+				pan interface{}
+			}
+			rdone := make(chan runOut, 1)
+			go func() {
+				var o runOut
+				defer func() { o.pan = recover(); rdone <- o }()
+				_, o.err = r.E.Run(nil)
+			}()
+			select {
+			case o := <-rdone:
+				if o.pan != nil {
+					violation(rt, "C20", payload, "Run panicked: %v", o.pan)
+				}
+				if (o.err != nil) != (position == "void-as-operand") {
+					violation(rt, "C20", payload, "Run with a host function that uses its evaluator: err=%v", o.err)
+				}
+			case <-time.After(30 * time.Second):
+				violation(rt, "C20", payload, "Run had not returned after 30 s: the host function calls GetVariable/SetVariable/AddFunction on the evaluator that is running it, and the call is blocked")
+			}
+			seen = nil
+			edone := make(chan eng.Result, 1)
+			go func() { edone <- r.Execute(nil) }()
+			select {
+			case res = <-edone:
+			case <-time.After(30 * time.Second):
+				violation(rt, "C20", payload, "Execute had not returned after 30 s (host function using its evaluator)")
+			}
+		} else {
+			res = r.Execute(nil)
+		}
 		if res.Panic != nil {
 			violation(rt, "C20", payload, "panic: %v", res.Panic)
 		}
